@@ -135,7 +135,13 @@ pub fn rand_op(rng: &mut Rng, thorough: bool) -> OpSpec {
                 let n = match r.below(10) {
                     0 => *r.pick(&[100usize, 110, 120, 126, 127, 128]),
                     1 => *r.pick(&[16_300usize, 16_370, 16_383, 16_384]),
-                    2 if thorough => *r.pick(&[2_097_100usize, 2_097_140, 2_097_152]),
+                    // 4-byte remaining lengths: the boundary and, more often, values inside the
+                    // range (every 7-bit group non-trivial); rare in the quick tier (megabytes per run)
+                    2 if thorough || r.chance(1, 150) => match r.below(5) {
+                        0 => *r.pick(&[2_097_100usize, 2_097_140, 2_097_152]),
+                        1 => *r.pick(&[3_000_000usize, 5_255_225, 0x2A_AAAA, 0x55_5555]),
+                        _ => r.urange(2_097_153, 9_000_000),
+                    },
                     _ => r.urange(0, 30),
                 };
                 r.bytes(n)
@@ -254,7 +260,18 @@ pub fn codec_out(rng: &mut Rng, thorough: bool) -> Case {
             disconnected = true;
         }
         let handle = g.rng.usize_below(g.cfg.handles.max(1));
+        let huge = matches!(&spec, OpSpec::Publish(p) if p.payload.as_ref().map(|b| b.len() > 100_000).unwrap_or(false));
+        if huge {
+            // megabytes go out in large writes (byte-sized writes would cost seconds per run)
+            g.push(Step::WriterReady);
+            let w = *g.rng.pick(&[65_536usize, 1_000_000, 100_000_000]);
+            g.push(Step::WriterSizes { sizes: vec![w] });
+        }
         g.push(Step::Op { id, handle, spec });
+        if huge {
+            g.settle();
+            continue;
+        }
         match g.rng.below(4) {
             0 => {}
             1 => {
